@@ -163,7 +163,28 @@ Proof.
     destruct (gwf_cl G W u v _ Hin) as [Hu Hv]. unfold mol_edge_ok. rewrite Hu, Hv. simpl.
     destruct (N.eqb_spec u v); [contradiction|]. simpl. exact Ho.
 Qed.
+Theorem mol_to_graph_std_free : std_free (mol_to_graph m true true) = true.
+Proof.
+  destruct st_tt as (E1 & E2 & W0 & _).
+  assert (nodes_good g0) as NG0 by (intros n a Hin; rewrite E1 in Hin; apply (numT_good atoms Hsym n a Hin)).
+  assert (edges_good g0) as EG0 by (intros u v x Hin; rewrite E2 in Hin; destruct Hin).
+  assert (forall b e o, In (b, e, o) bonds -> b <> e /\ okord o = true) as Hl.
+  { intros b e o Hin. split; [|apply (Hord b e o Hin)]. destruct (wf_bonds_spec _ _ Hwf) as [_ HB]. apply (HB b e o Hin). }
+  destruct (bonds_fold bonds g0 Hl W0 NG0 EG0 eq_refl) as (W & NG & EG & En). cbv zeta in *.
+  set (G := fold_left (m2g_bond (snd st)) bonds g0) in *.
+  change (std_free G = true). unfold std_free. apply forallb_forall. intros [[u v] x] Hin.
+  destruct (EG u v x Hin) as [_ (o & -> & _)]. reflexivity.
+Qed.
 End MolOk.
+
+Theorem rsmi_graph_std_free (m : rmol) : rdmol_ok m = true -> std_free (mol_to_graph m true true) = true.
+Proof.
+  unfold rdmol_ok. rewrite !andb_true_iff. intros [[[H1 H2] H3] H4]. apply mol_to_graph_std_free.
+  - exact H1.
+  - intros a Ha. rewrite forallb_forall in H2. apply (H2 a Ha).
+  - intros b e o Hin. rewrite forallb_forall in H3. apply (H3 (b, e, o) Hin).
+  - apply nodupb_NoDup. exact H4.
+Qed.
 
 Theorem rsmi_graph_mol_ok (m : rmol) : rdmol_ok m = true -> mol_ok (mol_to_graph m true true) = true.
 Proof.
